@@ -148,31 +148,82 @@ theorem parse_by_trait (o : Options) (g : GenFull) (h : genFull o f t = .ok g)
   have hn : (g.base.cases.flatMap (·.consts)).Nodup := by simpa using hdup.1.1
   exact C05.parse_of_case g.base hn c hc d hd
 
+/-- how many traits `validateParsableTraits` walks before `t` (name order) -/
+private def walkRank (ts : List TraitDesc) (t : TraitDesc) : Nat :=
+  (ts.filter (fun x => decide (x.name < t.name))).length
+
+private theorem walkRank_lt (ts : List TraitDesc) (t' t : TraitDesc) (hm : t' ∈ ts) (hlt : t'.name < t.name) :
+    walkRank ts t' < walkRank ts t := by
+  unfold walkRank
+  apply filter_length_lt _ _ ts _ t' hm
+  · simpa using hlt
+  · simp [String.lt_irrefl]
+  · intro x hx
+    have hx' : x.name < t'.name := by simpa using hx
+    simpa using String.lt_trans hx' hlt
+
+/-- the constant of every row of every parsable trait is a key of its value's `case` — listed by
+the trait itself or, when `validateParsableTraits` marked it as a repeat, by the FIRST parsable
+trait of the walk (name order) that carries the same constant on the same value -/
+private theorem dyn_in_case {o : Options} {g : GenFull} (h : genFull o f t = .ok g) (ha : Accepted f t.name k)
+    (first : Option Value) (n : Nat) :
+    ∀ td ∈ g.traits, td.parsable = true → walkRank g.traits td = n → ∀ r ∈ td.rows,
+      r.dyn ∈ caseConsts g.traits first r.owner := by
+  induction n using Nat.strongRecOn with
+  | _ n ih =>
+    intro td htd hp hrank r hr
+    obtain ⟨hown, _, huniq⟩ := row_facts h ha td htd r hr
+    have hinst : td.instanceOf r.owner = some r := by
+      unfold TraitDesc.instanceOf
+      cases hf : td.rows.find? (fun x => x.owner.name == r.owner.name) with
+      | none =>
+        rw [List.find?_eq_none] at hf
+        exact absurd (by simp) (hf r hr)
+      | some r' =>
+        have := huniq r' (List.mem_of_find?_eq_some hf) (by simpa using List.find?_some hf)
+        rw [this]
+    by_cases hrep : repeatsParseKey {} g.traits first td r = true
+    · unfold repeatsParseKey at hrep
+      rw [List.any_eq_true] at hrep
+      obtain ⟨t', ht', hc⟩ := hrep
+      simp only [Bool.and_eq_true, decide_eq_true_eq, List.any_eq_true, Bool.false_eq_true, if_false,
+        beq_iff_eq] at hc
+      obtain ⟨⟨hp', hlt⟩, r', hr', hname, hdyn⟩ := hc
+      have hin := ih (walkRank g.traits t') (hrank ▸ walkRank_lt g.traits t' td ht' hlt) t' ht' hp' rfl r' hr'
+      obtain ⟨hown', _, _⟩ := row_facts h ha t' ht' r' hr'
+      obtain ⟨c, hc, _, hcv⟩ := mem_sortedValues.mp hown
+      obtain ⟨c', hc', _, hcv'⟩ := mem_sortedValues.mp hown'
+      have hce : c' = c := const_eq_of_name ha.names hc' hc (by
+        have h1 : (Value.ofConst c').name = (Value.ofConst c).name := by rw [hcv', hcv]; exact hname
+        exact h1)
+      have hoe : r'.owner = r.owner := by rw [← hcv', ← hcv, hce]
+      rw [hdyn, hoe] at hin
+      exact hin
+    · unfold caseConsts
+      rw [List.mem_flatten]
+      refine ⟨[r.dyn], List.mem_map.mpr ⟨td, List.mem_filter.mpr ⟨htd, by simpa using hp⟩, ?_⟩, by simp⟩
+      unfold caseOne
+      rw [hinst]
+      simp [hrep]
+
 /-- `parse_by_trait` on the declaration side: for every parsable trait of an accepted generation
-and every row it keeps, `Parse<T>` of the row's typed constant returns the row's value. -/
+and every row it keeps, `Parse<T>` of the row's typed constant returns the row's value — also when
+the constant stands in several parsable trait columns of one line (the same type: listed once;
+different types: one key each). -/
 theorem parse_row (o : Options) (g : GenFull) (h : genFull o f t = .ok g) (ha : Accepted f t.name k)
     (td : TraitDesc) (htd : td ∈ g.traits) (hp : td.parsable = true) (r : TraitRow) (hr : r ∈ td.rows) :
     g.base.parse r.dyn = some r.owner.val := by
-  obtain ⟨hown, _, huniq⟩ := row_facts h ha td htd r hr
+  obtain ⟨hown, _, _⟩ := row_facts h ha td htd r hr
   have hn := C05.cases_nodup h
+  have hin := dyn_in_case h ha (sortedValues f t.name).head? (walkRank g.traits td) td htd hp rfl r hr
   obtain ⟨ts, _, hg, _⟩ := genFull_ok h
-  have hcase : caseOf ts r.owner ∈ g.base.cases := by
+  have hcase : caseOf ts (sortedValues f t.name).head? r.owner ∈ g.base.cases := by
     subst hg; exact List.mem_map.mpr ⟨_, hown, rfl⟩
-  have htd' : td ∈ ts := by subst hg; exact htd
-  have hone : caseOne r.owner td = [r.dyn] := by
-    unfold caseOne TraitDesc.instanceOf
-    cases hf : td.rows.find? (fun x => x.owner.name == r.owner.name) with
-    | none =>
-      rw [List.find?_eq_none] at hf
-      exact absurd (by simp) (hf r hr)
-    | some r' =>
-      have := huniq r' (List.mem_of_find?_eq_some hf) (by simpa using List.find?_some hf)
-      rw [this]
-  have hmem : r.dyn ∈ (caseOf ts r.owner).consts := by
-    unfold caseOf caseConsts
+  have hts : g.traits = ts := by subst hg; rfl
+  have hmem : r.dyn ∈ (caseOf ts (sortedValues f t.name).head? r.owner).consts := by
+    unfold caseOf
     apply List.mem_cons_of_mem
-    rw [List.mem_flatten]
-    exact ⟨[r.dyn], List.mem_map.mpr ⟨td, List.mem_filter.mpr ⟨htd', by simpa using hp⟩, hone⟩, by simp⟩
+    rw [← hts]; exact hin
   exact C05.parse_of_case g.base hn _ hcase r.dyn hmem
 
 /-- "pairwise distinct values" for the constant of row `r`, on the generated switch: no other
@@ -239,14 +290,16 @@ theorem decode_by_trait_string (o : Options) (g : GenFull) (h : genFull o f t = 
   unfold GenFull.unmarshalYAML; rw [hst]
 
 /-- every candidate of a numeric fallback fails or returns the owner, and the trait's own
-candidate returns the owner -/
+candidate returns the owner. The trait is in the block of codec `c`: its underlying kind is the
+block's and its type has no unmarshaler of its own for `c`. -/
 private theorem numericTry_row (g : GenFull) (td : TraitDesc) (htd : td ∈ g.traits) (hp : td.parsable = true)
     (r : TraitRow) (i : Int) (hdyn : r.dyn = ⟨td.ty, .int i⟩)
     (hcontent : ∀ ty, g.base.parse ⟨ty, .int i⟩ = none ∨ g.base.parse ⟨ty, .int i⟩ = some r.owner.val)
     (hrow : g.base.parse r.dyn = some r.owner.val)
-    (signed : Bool) (bits : Nat)
-    (hfam : td.fam = if signed then .sint bits else .uint bits) (hw : wrapTo signed bits i = i) :
-    numericTry {} g signed i = some r.owner.val := by
+    (c : Codec) (signed : Bool) (bits : Nat)
+    (hnum : td.fam.isNumeric signed = true) (hbits : td.fam.bitsOf = bits) (hown : td.fam.implements c = false)
+    (hw : wrapTo signed bits i = i) :
+    numericTry {} g c signed i = some r.owner.val := by
   unfold numericTry
   apply firstSome_eq
   · intro x hx
@@ -258,18 +311,16 @@ private theorem numericTry_row (g : GenFull) (td : TraitDesc) (htd : td ∈ g.tr
     · left
       have : (({} : Quirks).noRangeGuard || w == i) = false := by simp [hc]
       rw [this]; rfl
-  · have hbits : td.fam.bitsOf = bits := by cases signed <;> simp [hfam, Family.bitsOf]
-    refine List.mem_map.mpr ⟨td, List.mem_filter.mpr ⟨htd, ?_⟩, ?_⟩
-    · cases signed <;> simp [hp, hfam, Family.isNumeric]
-    · simp only [hbits, hw]
-      rw [← hdyn, hrow]; simp
+  · refine List.mem_map.mpr ⟨td, mem_numericTraits.mpr ⟨htd, hp, hnum, hown⟩, ?_⟩
+    simp only [hbits, hw]
+    rw [← hdyn, hrow]; simp
 
 /-- every candidate of a numeric fallback fails or returns the owner -/
-private theorem numericTry_cases (g : GenFull) (r : TraitRow) (i : Int)
+private theorem numericTry_cases (g : GenFull) (c : Codec) (r : TraitRow) (i : Int)
     (hcontent : ∀ ty, g.base.parse ⟨ty, .int i⟩ = none ∨ g.base.parse ⟨ty, .int i⟩ = some r.owner.val) :
-    ∀ sg, numericTry {} g sg i = none ∨ numericTry {} g sg i = some r.owner.val := by
+    ∀ sg, numericTry {} g c sg i = none ∨ numericTry {} g c sg i = some r.owner.val := by
   intro sg
-  cases hq : numericTry {} g sg i with
+  cases hq : numericTry {} g c sg i with
   | none => exact Or.inl rfl
   | some w =>
     right
@@ -294,12 +345,14 @@ private theorem numericTry_cases (g : GenFull) (r : TraitRow) (i : Int)
       rw [this]; rfl
 
 /-- `decode_by_trait`, integer kinds (untyped int, named and built-in signed / unsigned integer
-types of 1-64 bits, `time.Duration`): a JSON integer holding the constant of a row of a parsable
-trait decodes to the row's value. -/
+types of 1-64 bits, `time.Duration`, and every integer-kinded type WITHOUT an `UnmarshalJSON` of
+its own — an enum generated earlier with `-json=false`, a hand-written type with only a YAML or
+text unmarshaler): a JSON integer holding the constant of a row of a parsable trait decodes to the
+row's value. -/
 theorem decode_by_trait_json_int (o : Options) (g : GenFull) (h : genFull o f t = .ok g) (ha : Accepted f t.name k)
     (td : TraitDesc) (htd : td ∈ g.traits) (hp : td.parsable = true)
     (signed : Bool) (bits : Nat) (hb : 1 ≤ bits ∧ bits ≤ 64)
-    (hfam : td.fam = if signed then .sint bits else .uint bits)
+    (hnum : td.fam.isNumeric signed = true) (hbits : td.fam.bitsOf = bits) (hown : td.fam.implements .json = false)
     (r : TraitRow) (hr : r ∈ td.rows) (i : Int) (hi : r.dyn.v = .int i)
     (hrange : if signed then -((2 : Int) ^ (bits - 1)) ≤ i ∧ i < (2 : Int) ^ (bits - 1) else 0 ≤ i ∧ i < (2 : Int) ^ bits)
     (hd : Distinct g r) :
@@ -312,8 +365,8 @@ theorem decode_by_trait_json_int (o : Options) (g : GenFull) (h : genFull o f t 
     cases hrd : r.dyn with
     | mk ty v => rw [hrd] at hty hi; simp at hty hi; rw [hty, hi]
   have hw := wrapTo_id signed bits hb.1 i hrange
-  have hmine := numericTry_row g td htd hp r i hdyn hcontent hrow signed bits hfam hw
-  have hother := numericTry_cases g r i hcontent
+  have hmine := numericTry_row g td htd hp r i hdyn hcontent hrow .json signed bits hnum hbits hown hw
+  have hother := numericTry_cases g .json r i hcontent
   have p63 := pow_le_two63 (n := bits - 1) (by omega)
   have p64 := pow_le_two64 (n := bits) hb.2
   unfold GenFull.unmarshalJSON
@@ -334,14 +387,16 @@ theorem decode_by_trait_json_int (o : Options) (g : GenFull) (h : genFull o f t 
       · cases hv
     · rw [if_pos hcond, hmine]
 
-/-- `decode_by_trait`, integer kinds, YAML: a scalar whose text is a decimal numeral denoting the
-constant of a row of a parsable integer trait (`strconv.ParseInt` reads it as `i`, `ParseUint`
-too when `i ≥ 0`), and which is not itself a string constant of the switch, decodes to the row's
-value. -/
+/-- `decode_by_trait`, integer kinds, YAML (the same kinds, and every integer-kinded type WITHOUT an
+`UnmarshalYAML` of its own — an enum generated earlier with `-yaml=false`, a hand-written type with
+only a JSON or text unmarshaler): a scalar whose text is a decimal numeral denoting the constant of
+a row of a parsable integer trait (`strconv.ParseInt` reads it as `i`, `ParseUint` too when
+`i ≥ 0`), and which is not itself a string constant of the switch, decodes to the row's value.
+The block exists because the trait itself is in the list that guards it. -/
 theorem decode_by_trait_yaml_int (o : Options) (g : GenFull) (h : genFull o f t = .ok g) (ha : Accepted f t.name k)
     (td : TraitDesc) (htd : td ∈ g.traits) (hp : td.parsable = true)
     (signed : Bool) (bits : Nat) (hb : 1 ≤ bits ∧ bits ≤ 64)
-    (hfam : td.fam = if signed then .sint bits else .uint bits)
+    (hnum : td.fam.isNumeric signed = true) (hbits : td.fam.bitsOf = bits) (hown : td.fam.implements .yaml = false)
     (r : TraitRow) (hr : r ∈ td.rows) (i : Int) (hi : r.dyn.v = .int i)
     (hrange : if signed then -((2 : Int) ^ (bits - 1)) ≤ i ∧ i < (2 : Int) ^ (bits - 1) else 0 ≤ i ∧ i < (2 : Int) ^ bits)
     (hd : Distinct g r)
@@ -357,51 +412,48 @@ theorem decode_by_trait_yaml_int (o : Options) (g : GenFull) (h : genFull o f t 
     cases hrd : r.dyn with
     | mk ty v => rw [hrd] at hty hi; simp at hty hi; rw [hty, hi]
   have hw := wrapTo_id signed bits hb.1 i hrange
-  have hmine := numericTry_row g td htd hp r i hdyn hcontent hrow signed bits hfam hw
-  have hother := numericTry_cases g r i hcontent
+  have hmine := numericTry_row g td htd hp r i hdyn hcontent hrow .yaml signed bits hnum hbits hown hw
+  have hother := numericTry_cases g .yaml r i hcontent
+  have hmem : td ∈ g.numericTraits .yaml signed := mem_numericTraits.mpr ⟨htd, hp, hnum, hown⟩
+  have hne : (g.numericTraits .yaml signed).isEmpty = false := by
+    cases hl : g.numericTraits .yaml signed with
+    | nil => rw [hl] at hmem; cases hmem
+    | cons _ _ => rfl
   unfold GenFull.unmarshalYAML
   rw [stringTry_none g text hnostr]
   simp only [hpi]
   cases signed
   · -- unsigned family: ParseUint reads the numeral and the uint64 branch finds it
-    simp only [Bool.false_eq_true, if_false] at hrange hmine hfam
-    have hU : (g.numericTraits false).isEmpty = false := by
-      have : td ∈ g.numericTraits false := List.mem_filter.mpr ⟨htd, by simp [hp, hfam, Family.isNumeric]⟩
-      cases hl : g.numericTraits false with
-      | nil => rw [hl] at this; cases this
-      | cons _ _ => rfl
-    rw [hpu, if_pos hrange.1, hU]
+    simp only [Bool.false_eq_true, if_false] at hrange hmine
+    rw [hpu, if_pos hrange.1, hne]
     simp [hmine]
-  · simp only [if_true] at hrange hmine hfam
-    have hS : (g.numericTraits true).isEmpty = false := by
-      have : td ∈ g.numericTraits true := List.mem_filter.mpr ⟨htd, by simp [hp, hfam, Family.isNumeric]⟩
-      cases hl : g.numericTraits true with
-      | nil => rw [hl] at this; cases this
-      | cons _ _ => rfl
-    rw [hpu, hS]
+  · simp only [if_true] at hrange hmine
+    rw [hpu, hne]
     by_cases h0 : 0 ≤ i
     · rw [if_pos h0]
       rcases hother false with hu | hu
       · simp [hu, hmine]
-      · have hne : g.numericTraits false ≠ [] := by
+      · have hne' : g.numericTraits .yaml false ≠ [] := by
           intro he
           unfold numericTry at hu
           rw [he] at hu
           cases hu
-        simp [hu, hne]
+        simp [hu, hne']
     · rw [if_neg h0]
       simp [hmine]
 
-/-- the native block finds the row: if the trait type's own decoder reads the document as `v`,
-the trait's row constant is `T(v)`, and every other self-unmarshalling trait's reading of the
-document is no constant of another value, the block returns the row's value -/
+/-- the native block of codec `c` finds the row: if the trait type's own unmarshaler for `c` reads
+the document as `v`, the trait's row constant is `T(v)`, and every other self-unmarshalling trait's
+reading of the document is no constant of another value, the block returns the row's value -/
 private theorem nativeTry_row (o : Options) (g : GenFull) (h : genFull o f t = .ok g) (ha : Accepted f t.name k)
-    (td : TraitDesc) (htd : td ∈ g.traits) (hp : td.parsable = true) (inner : String) (hfam : td.fam = .self inner)
+    (c : Codec) (td : TraitDesc) (htd : td ∈ g.traits) (hp : td.parsable = true)
+    (inner : String) (sg : Bool) (b : Nat) (m : Methods) (hfam : td.fam = .self inner sg b m) (himpl : m.implements c = true)
     (r : TraitRow) (hr : r ∈ td.rows) (v : Int) (hv : r.dyn.v = .int v)
     (dec : String → Option Int) (hdec : dec inner = some v)
-    (hothers : ∀ td' ∈ g.traits, td'.parsable = true → ∀ inner' v', td'.fam = .self inner' → dec inner' = some v' →
+    (hothers : ∀ td' ∈ g.traits, td'.parsable = true → ∀ inner' sg' b' m' v', td'.fam = .self inner' sg' b' m' →
+      m'.implements c = true → dec inner' = some v' →
       g.base.parse ⟨td'.ty, .int v'⟩ = none ∨ g.base.parse ⟨td'.ty, .int v'⟩ = some r.owner.val) :
-    g.nativeTry dec = some r.owner.val := by
+    g.nativeTry c dec = some r.owner.val := by
   have hrow := parse_row o g h ha td htd hp r hr
   have hty := (row_facts h ha td htd r hr).2.1
   have hdyn : r.dyn = ⟨td.ty, .int v⟩ := by
@@ -413,11 +465,15 @@ private theorem nativeTry_row (o : Options) (g : GenFull) (h : genFull o f t = .
     obtain ⟨td', htd', rfl⟩ := List.mem_map.mp hx
     have hm := List.mem_filter.mp htd'
     cases hf : td'.fam with
-    | self inner' =>
+    | self inner' sg' b' m' =>
       simp only []
-      cases hd' : dec inner' with
-      | none => exact Or.inl rfl
-      | some v' => exact hothers td' hm.1 (by simpa using hm.2) inner' v' hf hd'
+      cases hi' : m'.implements c with
+      | false => exact Or.inl rfl
+      | true =>
+        simp only [if_true]
+        cases hd' : dec inner' with
+        | none => exact Or.inl rfl
+        | some v' => exact hothers td' hm.1 (by simpa using hm.2) inner' sg' b' m' v' hf hi' hd'
     | ustr => exact Or.inl rfl
     | nstr => exact Or.inl rfl
     | sint b => exact Or.inl rfl
@@ -425,29 +481,63 @@ private theorem nativeTry_row (o : Options) (g : GenFull) (h : genFull o f t = .
     | none => exact Or.inl rfl
   · refine List.mem_map.mpr ⟨td, List.mem_filter.mpr ⟨htd, by simpa using hp⟩, ?_⟩
     rw [hfam]
-    simp only [hdec]
+    simp only [himpl, if_true, hdec]
     rw [← hdyn, hrow]
 
-/-- `decode_by_trait`, self-unmarshalling trait types (another generated enum): a JSON / YAML
-document that the trait type's own decoder reads as the constant `T(v)` of a row of a parsable
-trait — for an enum: the NAME of `v`, by `C05.roundtrip` on the inner enum — and that the string /
-integer branches of the outer decoder reject, decodes to the row's value through the native
-block, in both decoders. -/
+/-- `decode_by_trait`, trait types that decode themselves for codec JSON (another enum generated
+with `-json`, a hand-written type with an `UnmarshalJSON`): a JSON document that the trait type's
+own unmarshaler reads as the constant `T(v)` of a row of a parsable trait — for an enum: the NAME
+of `v`, by `C05.roundtrip` on the inner enum — and that the string / integer branches of the outer
+decoder reject, decodes to the row's value through the native block. -/
+theorem decode_by_trait_self_json (o : Options) (g : GenFull) (h : genFull o f t = .ok g) (ha : Accepted f t.name k)
+    (td : TraitDesc) (htd : td ∈ g.traits) (hp : td.parsable = true)
+    (inner : String) (sg : Bool) (b : Nat) (m : Methods) (hfam : td.fam = .self inner sg b m) (himpl : m.implements .json = true)
+    (r : TraitRow) (hr : r ∈ td.rows) (v : Int) (hv : r.dyn.v = .int v)
+    (envJ : String → JDoc → Option Int) (doc : JDoc)
+    (hdj : envJ inner doc = some v) (hj : g.unmarshalJSON {} doc = none)
+    (hoj : ∀ td' ∈ g.traits, td'.parsable = true → ∀ inner' sg' b' m' v', td'.fam = .self inner' sg' b' m' →
+      m'.implements .json = true → envJ inner' doc = some v' →
+      g.base.parse ⟨td'.ty, .int v'⟩ = none ∨ g.base.parse ⟨td'.ty, .int v'⟩ = some r.owner.val) :
+    g.unmarshalJSONFull {} envJ doc = some r.owner.val := by
+  unfold GenFull.unmarshalJSONFull
+  rw [hj]
+  exact nativeTry_row o g h ha .json td htd hp inner sg b m hfam himpl r hr v hv _ hdj hoj
+
+/-- the same for YAML (another enum generated with `-yaml`, a hand-written type with an
+`UnmarshalYAML`) -/
+theorem decode_by_trait_self_yaml (o : Options) (g : GenFull) (h : genFull o f t = .ok g) (ha : Accepted f t.name k)
+    (td : TraitDesc) (htd : td ∈ g.traits) (hp : td.parsable = true)
+    (inner : String) (sg : Bool) (b : Nat) (m : Methods) (hfam : td.fam = .self inner sg b m) (himpl : m.implements .yaml = true)
+    (r : TraitRow) (hr : r ∈ td.rows) (v : Int) (hv : r.dyn.v = .int v)
+    (envY : String → String → Option Int) (text : String)
+    (hdy : envY inner text = some v) (hy : g.unmarshalYAML {} text = none)
+    (hoy : ∀ td' ∈ g.traits, td'.parsable = true → ∀ inner' sg' b' m' v', td'.fam = .self inner' sg' b' m' →
+      m'.implements .yaml = true → envY inner' text = some v' →
+      g.base.parse ⟨td'.ty, .int v'⟩ = none ∨ g.base.parse ⟨td'.ty, .int v'⟩ = some r.owner.val) :
+    g.unmarshalYAMLFull {} envY text = some r.owner.val := by
+  unfold GenFull.unmarshalYAMLFull
+  rw [hy]
+  exact nativeTry_row o g h ha .yaml td htd hp inner sg b m hfam himpl r hr v hv _ hdy hoy
+
+/-- `decode_by_trait_self`: a trait type with BOTH unmarshalers (an enum generated with the default
+switches), both decoders. -/
 theorem decode_by_trait_self (o : Options) (g : GenFull) (h : genFull o f t = .ok g) (ha : Accepted f t.name k)
-    (td : TraitDesc) (htd : td ∈ g.traits) (hp : td.parsable = true) (inner : String) (hfam : td.fam = .self inner)
+    (td : TraitDesc) (htd : td ∈ g.traits) (hp : td.parsable = true)
+    (inner : String) (sg : Bool) (b : Nat) (m : Methods) (hfam : td.fam = .self inner sg b m)
+    (hij : m.implements .json = true) (hiy : m.implements .yaml = true)
     (r : TraitRow) (hr : r ∈ td.rows) (v : Int) (hv : r.dyn.v = .int v)
     (envJ : String → JDoc → Option Int) (envY : String → String → Option Int) (doc : JDoc) (text : String)
     (hdj : envJ inner doc = some v) (hdy : envY inner text = some v)
     (hj : g.unmarshalJSON {} doc = none) (hy : g.unmarshalYAML {} text = none)
-    (hoj : ∀ td' ∈ g.traits, td'.parsable = true → ∀ inner' v', td'.fam = .self inner' → envJ inner' doc = some v' →
+    (hoj : ∀ td' ∈ g.traits, td'.parsable = true → ∀ inner' sg' b' m' v', td'.fam = .self inner' sg' b' m' →
+      m'.implements .json = true → envJ inner' doc = some v' →
       g.base.parse ⟨td'.ty, .int v'⟩ = none ∨ g.base.parse ⟨td'.ty, .int v'⟩ = some r.owner.val)
-    (hoy : ∀ td' ∈ g.traits, td'.parsable = true → ∀ inner' v', td'.fam = .self inner' → envY inner' text = some v' →
+    (hoy : ∀ td' ∈ g.traits, td'.parsable = true → ∀ inner' sg' b' m' v', td'.fam = .self inner' sg' b' m' →
+      m'.implements .yaml = true → envY inner' text = some v' →
       g.base.parse ⟨td'.ty, .int v'⟩ = none ∨ g.base.parse ⟨td'.ty, .int v'⟩ = some r.owner.val) :
-    g.unmarshalJSONFull {} envJ doc = some r.owner.val ∧ g.unmarshalYAMLFull {} envY text = some r.owner.val := by
-  unfold GenFull.unmarshalJSONFull GenFull.unmarshalYAMLFull
-  rw [hj, hy]
-  exact ⟨nativeTry_row o g h ha td htd hp inner hfam r hr v hv _ hdj hoj,
-         nativeTry_row o g h ha td htd hp inner hfam r hr v hv _ hdy hoy⟩
+    g.unmarshalJSONFull {} envJ doc = some r.owner.val ∧ g.unmarshalYAMLFull {} envY text = some r.owner.val :=
+  ⟨decode_by_trait_self_json o g h ha td htd hp inner sg b m hfam hij r hr v hv envJ doc hdj hj hoj,
+   decode_by_trait_self_yaml o g h ha td htd hp inner sg b m hfam hiy r hr v hv envY text hdy hy hoy⟩
 
 /-! ## the pinned algorithms -/
 
@@ -507,12 +597,54 @@ theorem legacy_rune_family_violates :
        g.unmarshalJSON {} (.num 99), g.unmarshalJSON {} (.num 4294967394)))
       = some (some 1, some 1, some 1, none, none) := by decide
 
+/-- `Circle, _tint, _code = Shape(iota), NoTint, 0` / `Square, _, _ = Shape(iota), Red, 5`: on the
+line of `Circle` the parsable traits `tint` (type `Tint`, another enum) and `code` (untyped int) both
+carry a constant whose value text is `0` -/
+def tintCols : List TraitCol :=
+  [⟨"tint", "Tint", .self "Tint" true 64 (.ofSwitches true true true)⟩, ⟨"code", "int", .sint 64⟩]
+
+def tintFile : FileDef :=
+  ⟨[{ name := "Shape", kind := ⟨64, true⟩, cols := tintCols }, { name := "Tint", kind := ⟨64, true⟩ }],
+   [{ name := "Circle", ty := "Shape", val := 0, deprecated := false, tvals := [.int 0, .int 0] },
+    { name := "Square", ty := "Shape", val := 1, deprecated := false, tvals := [.int 1, .int 5] },
+    { name := "NoTint", ty := "Tint", val := 0, deprecated := false },
+    { name := "Red", ty := "Tint", val := 1, deprecated := false }]⟩
+
+/-- two untyped int traits with the same constants on every line -/
+def twinFile : FileDef :=
+  ⟨[{ name := "E", kind := ⟨64, true⟩, cols := [⟨"Num", "int", .sint 64⟩, ⟨"Cnt", "int", .sint 64⟩] }],
+   [{ name := "A0", ty := "E", val := 0, deprecated := false, tvals := [.int 3, .int 3] },
+    { name := "A1", ty := "E", val := 1, deprecated := false, tvals := [.int 4, .int 4] }]⟩
+
+/-- the repeat marking of `validateParsableTraits`. /repo 7793249 marked a later parsable trait's
+constant whenever its value TEXT had been seen on the same enum value, whatever the types: the
+walk is in name order, `code` comes before `tint`, and `NoTint` = `Tint(0)` was left out of
+`Circle`'s case (`case "Circle", _code:`) although `Tint(0)` and `0` are different keys, so
+`ParseShape(NoTint)` failed (and JSON / YAML decoding through the `tint` trait). The current rule (42de8c1) compares the types too:
+both are listed; a repeat under the SAME type (`twinFile`) is listed once — without the marking the
+case would hold the constant twice and not compile — and both traits parse. -/
+theorem legacy_repeat_ignores_type_violates :
+    (genFullQ { repeatIgnoresType := true } { parsable := ["tint", "code"] } tintFile
+        { name := "Shape", kind := ⟨64, true⟩, cols := tintCols }).toOption.map (fun g =>
+      (g.base.parse ⟨"Tint", .int 0⟩, g.base.parse ⟨"int", .int 0⟩, g.unmarshalJSON {} (.num 0), g.base.parse ⟨"int", .int 5⟩))
+      = some (none, some 0, some 0, some 1) ∧
+    (genFull { parsable := ["tint", "code"] } tintFile
+        { name := "Shape", kind := ⟨64, true⟩, cols := tintCols }).toOption.map (fun g =>
+      (g.base.parse ⟨"Tint", .int 0⟩, g.base.parse ⟨"int", .int 0⟩, g.unmarshalJSON {} (.num 0), g.base.parse ⟨"int", .int 5⟩))
+      = some (some 0, some 0, some 0, some 1) ∧
+    (genFull { parsable := ["Num", "Cnt"] } twinFile
+        { name := "E", kind := ⟨64, true⟩, cols := [⟨"Num", "int", .sint 64⟩, ⟨"Cnt", "int", .sint 64⟩] }).toOption.map (fun g =>
+      (g.base.cases.map (·.consts.length), g.base.parse ⟨"int", .int 4⟩, g.unmarshalYAML {} "3"))
+      = some ([2, 2], some 1, some 0) := by decide
+
 /- `decode_by_trait` is proved for every family the template has a branch for:
    `decode_by_trait_string` (untyped and named strings; JSON, text, YAML), `decode_by_trait_json_int`
    and `decode_by_trait_yaml_int` (signed / unsigned integers of 1-64 bits, untyped rune included
    since fix-C12-rune-trait), each under `Distinct` (the quantifier's "pairwise distinct values",
-   stated on the generated switch), and `decode_by_trait_self` for trait types that unmarshal
-   themselves (another generated enum; JSON and YAML native block). The bool family has no template
+   stated on the generated switch), and `decode_by_trait_self_json` / `_yaml` for trait types that
+   bring that codec's unmarshaler (another enum generated earlier with the codec's switch on, a
+   hand-written type; native block). An integer-kinded type WITHOUT the codec's unmarshaler is in
+   the integer theorems (`hown`), whatever other unmarshalers it has: `self_codec_table`. The bool family has no template
    branch and falsifies the statement on the code: known finding C12:decode:bool-trait. Not
    modelled: float trait types. -/
 
@@ -563,27 +695,59 @@ theorem text_collision_rejected :
         { name := "M1", ty := "E", val := 1, deprecated := false, tvals := [.int 8, .int 9] }]⟩
       { name := "E", kind := ⟨64, true⟩, cols := [⟨"Mid", "int16", .sint 16⟩, ⟨"Num", "int", .sint 64⟩] }) = none := by decide
 
-/-- a file with an inner enum `Colour` (Red, Green) and an outer enum whose parsable trait `Skin`
-has type `Colour`: JSON "Green" / YAML Green decode through the native block to the owner of
-Colour(1); the bare numeral 1 and a near-miss name are rejected; the int trait still decodes 20. -/
-def selfFile : FileDef :=
-  ⟨[{ name := "Fruit", kind := ⟨64, true⟩, cols := [⟨"Sku", "int", .sint 64⟩, ⟨"Skin", "Colour", .self "Colour"⟩] },
-    { name := "Colour", kind := ⟨64, true⟩ }],
+/-- a file with an inner enum `Colour` (Red, Green) and an outer enum `Fruit` whose parsable trait
+`Skin` has type `Colour`; `m` = the unmarshal methods `Colour` has when `Fruit` is generated -/
+def selfCols (m : Methods) : List TraitCol := [⟨"Sku", "int", .sint 64⟩, ⟨"Skin", "Colour", .self "Colour" true 64 m⟩]
+
+def selfFile (m : Methods) : FileDef :=
+  ⟨[{ name := "Fruit", kind := ⟨64, true⟩, cols := selfCols m }, { name := "Colour", kind := ⟨64, true⟩ }],
    [{ name := "Apple", ty := "Fruit", val := 0, deprecated := false, tvals := [.int 10, .int 0] },
     { name := "Lime", ty := "Fruit", val := 1, deprecated := false, tvals := [.int 20, .int 1] },
     { name := "Red", ty := "Colour", val := 0, deprecated := false },
     { name := "Green", ty := "Colour", val := 1, deprecated := false }]⟩
 
-example :
-    (genFull {} selfFile { name := "Colour", kind := ⟨64, true⟩ }).toOption.bind (fun gi =>
-      (genFull { parsable := ["Sku", "Skin"] } selfFile
-          { name := "Fruit", kind := ⟨64, true⟩, cols := [⟨"Sku", "int", .sint 64⟩, ⟨"Skin", "Colour", .self "Colour"⟩] }).toOption.map (fun g =>
-        let envJ : String → JDoc → Option Int := fun _ d => gi.unmarshalJSON {} d
-        let envY : String → String → Option Int := fun _ s => gi.unmarshalYAML {} s
-        [g.unmarshalJSONFull {} envJ (.str "Green"), g.unmarshalYAMLFull {} envY "Green",
-         g.unmarshalJSONFull {} envJ (.num 1), g.unmarshalYAMLFull {} envY "1",
-         g.unmarshalJSONFull {} envJ (.str "Greenx"), g.unmarshalJSONFull {} envJ (.num 20),
-         g.base.parse ⟨"Colour", .int 1⟩]))
-    = some [some 1, some 1, none, none, none, some 1, some 1] := by decide
+/-- what the decoders of `Fruit` answer on: JSON "Green", 1, "Greenx", 20; YAML Green, 1; text Green —
+with `parsable` declared parsable and `Colour`'s own decoders as the environment -/
+def selfAnswers (m : Methods) (parsable : List String) : Option (List (Option Int)) :=
+  (genFull {} (selfFile m) { name := "Colour", kind := ⟨64, true⟩ }).toOption.bind (fun gi =>
+    (genFull { parsable := parsable } (selfFile m) { name := "Fruit", kind := ⟨64, true⟩, cols := selfCols m }).toOption.map (fun g =>
+      let envJ : String → JDoc → Option Int := fun _ d => gi.unmarshalJSON {} d
+      let envY : String → String → Option Int := fun _ s => gi.unmarshalYAML {} s
+      let envT : String → String → Option Int := fun _ s => gi.unmarshalText s
+      [g.unmarshalJSONFull {} envJ (.str "Green"), g.unmarshalJSONFull {} envJ (.num 1),
+       g.unmarshalJSONFull {} envJ (.str "Greenx"), g.unmarshalJSONFull {} envJ (.num 20),
+       g.unmarshalYAMLFull {} envY "Green", g.unmarshalYAMLFull {} envY "1",
+       g.unmarshalTextFull envT "Green"]))
+
+/-- `Colour` generated with the default switches (all three unmarshalers): JSON "Green" / YAML Green
+decode through the native block to the owner of Colour(1); the bare numeral 1 and a near-miss name
+are rejected; the int trait still decodes 20; text never decodes by an integer-kinded trait. -/
+example : selfAnswers (.ofSwitches true true true) ["Sku", "Skin"] =
+    some [some 1, none, none, some 1, some 1, none, none] := by decide
+
+/-- the table per codec set of the inner type, `Skin` being the ONLY integer-kinded parsable trait or
+next to the untyped int trait `Sku`: for each of JSON and YAML separately, a `Colour` WITH that
+codec's unmarshaler is read by name (native block) and its numeral is rejected; a `Colour` WITHOUT it
+is read by numeral (that codec's integer block, which then exists also when `Skin` is its only
+member) and its name is rejected. The text switch changes nothing. Hand-written types with one
+pointer-receiver unmarshaler are the rows with exactly one switch on. -/
+theorem self_codec_table :
+    ∀ j ∈ [false, true], ∀ y ∈ [false, true], ∀ t ∈ [false, true], ∀ alone ∈ [false, true],
+      selfAnswers (.ofSwitches j y t) (if alone then ["Skin"] else ["Sku", "Skin"]) =
+        some [if j then some 1 else none, if j then none else some 1, none, if alone then none else some 1,
+              if y then some 1 else none, if y then none else some 1, none] := by decide
+
+/-- a value-receiver `UnmarshalText` is the one shape `implementsTextUnmarshaler` accepts: only then
+does the text decoder have a native block -/
+example : selfAnswers ⟨.no, .no, .val⟩ ["Skin"] = some [none, some 1, none, none, none, some 1, some 1] ∧
+    selfAnswers ⟨.no, .no, .ptr⟩ ["Skin"] = some [none, some 1, none, none, none, some 1, none] := by decide
+
+/-- the hypotheses of `decode_by_trait_json_int` / `_yaml_int` for a trait type that has only the
+OTHER codec's unmarshaler, and of `decode_by_trait_self_json` / `_yaml` for one that has this
+codec's, are satisfiable -/
+example : (Family.self "Colour" true 64 (.ofSwitches false true true)).isNumeric true = true ∧
+    (Family.self "Colour" true 64 (.ofSwitches false true true)).implements .json = false ∧
+    (Family.self "Colour" true 64 (.ofSwitches false true true)).implements .yaml = true ∧
+    (Family.self "Colour" true 64 (.ofSwitches true true true)).implements .text = false := by decide
 
 end Genum.C12
